@@ -434,3 +434,326 @@ Lemma directive_maps_first_line pr fuel out g ls i id t :
 Proof.
   intros Hnd Hbw H Hin Hn. eapply ok_sound; eauto. eapply compile_prog_ok; eauto.
 Qed.
+
+(* ------------------------------------------------------------------ termination: the fuel prog_fuel suffices *)
+
+Section Fuel.
+Variable pr : prog.
+
+Definition gsize (g : N) : nat := match find_func pr g with Some d => size_decl d | None => 0 end.
+Fixpoint usize (u : list N) : nat := match u with [] => 0 | g :: t => gsize g + usize t end.
+
+Lemma usize_remove g u : memN g u = true -> (usize (removeN g u) + gsize g <= usize u)%nat.
+Proof.
+  induction u as [|y t IH]; simpl; [discriminate|].
+  destruct (N.eqb g y) eqn:E.
+  - apply N.eqb_eq in E. subst y. intros _. destruct (memN g t) eqn:Et.
+    + specialize (IH eq_refl). lia.
+    + clear IH. assert (H : removeN g t = t).
+      { clear -Et. induction t as [|z t IH]; simpl in *; auto. apply orb_false_iff in Et as [A B]. rewrite A. f_equal. auto. }
+      rewrite H. lia.
+  - simpl. intros H. specialize (IH H). simpl. lia.
+Qed.
+
+(* a call with enough fuel returns Ok and does not grow the set of unloaded functions *)
+Definition T_res (st : state) (r : M R) : Prop :=
+  exists ls st', r = Ok (ls, st') /\ (usize (unl st') <= usize (unl st))%nat.
+Definition T_stmt (f : nat) : Prop := forall s st, (size_stmt s + usize (unl st) <= f)%nat -> T_res st (compile_stmt pr f s st).
+Definition T_stmts (f : nat) : Prop := forall b st, (size_stmts b + usize (unl st) <= f)%nat -> T_res st (compile_stmts pr f b st).
+Definition T_ostmt (f : nat) : Prop := forall o st, (size_ostmt o + usize (unl st) <= f)%nat -> T_res st (compile_ostmt pr f o st).
+Definition T_parts (f : nat) : Prop := forall ps st, (size_parts ps + usize (unl st) <= f)%nat -> T_res st (compile_parts pr f ps st).
+Definition T_els (f : nat) : Prop := forall e st, (size_els e + usize (unl st) <= f)%nat -> T_res st (compile_els pr f e st).
+Definition T_clauses (f : nat) : Prop := forall cs st, (size_clauses cs + usize (unl st) <= f)%nat -> T_res st (compile_clauses pr f cs st).
+Definition T_load (f : nat) : Prop := forall g st, (1 + gsize g + usize (unl st) <= f)%nat ->
+  exists st', load_func pr f g st = Ok st' /\ (usize (unl st') <= usize (unl st))%nat.
+Definition T_all (f : nat) : Prop :=
+  T_stmt f /\ T_stmts f /\ T_ostmt f /\ T_parts f /\ T_els f /\ T_clauses f /\ T_load f.
+
+(* run one sub-call: obtain its result and the bound on the new state *)
+Ltac use_eq E :=
+  match goal with
+  | |- context [bind ?m _] =>
+      match type of E with _ = ?r => replace m with r by (symmetry; exact E) end
+  end; cbn [bind].
+Ltac sub IH x st0 :=
+  let ls := fresh "l" in let s1 := fresh "s" in let E := fresh "E" in let U := fresh "U" in
+  destruct (IH x st0) as (ls & s1 & E & U);
+  [ unfold comment_stmt, comment_decl, set_cm, set_unl in *; cbn [unl cm outf] in *; try lia
+  | use_eq E ].
+
+Lemma size_parts_pos ps : (1 <= size_parts ps)%nat.
+Proof. destruct ps; simpl; lia. Qed.
+
+Ltac fin := unfold comment_stmt, comment_decl, set_cm, set_unl, add_out in *; cbn [unl] in *; lia.
+
+Lemma T_step f : T_all f -> T_all (S f).
+Proof.
+  intros (Is & Iss & Io & Ip & Ie & Ic & Il).
+  unfold T_all, T_stmt, T_stmts, T_ostmt, T_parts, T_els, T_clauses, T_load, T_res in *.
+  refine (conj _ (conj _ (conj _ (conj _ (conj _ (conj _ _)))))).
+  - intros s st H. destruct s; cbn [compile_stmt compile_stmts compile_ostmt compile_parts compile_els compile_clauses load_func size_stmt] in *.
+    + sub Ip ps (comment_stmt p st). eexists. eexists. split; [reflexivity|fin].
+    + assert (Hu : unl (comment_decl p docp hasdoc st) = unl st) by (destruct p, hasdoc; reflexivity).
+      destruct (Ip ps (comment_decl p docp hasdoc st)) as (l & s1 & E & U); [rewrite Hu; lia|].
+      use_eq E. eexists. eexists. split; [reflexivity|rewrite Hu in U; exact U].
+    + sub Iss b (comment_stmt p st). eexists. eexists. split; [reflexivity|fin].
+    + sub Io init (comment_stmt p st). sub Ip ps s. sub Iss b s0. sub Ie e s1.
+      eexists. eexists. split; [reflexivity|fin].
+    + sub Io init (comment_stmt p st). sub Ip ps s. sub Iss b s0. sub Io post s1.
+      eexists. eexists. split; [reflexivity|fin].
+    + sub Ip ps (comment_stmt p st). sub Iss b s.
+      eexists. eexists. split; [reflexivity|fin].
+    + sub Ip ps (comment_stmt p st). sub Ip cps s. sub Iss b s0.
+      eexists. eexists. split; [reflexivity|fin].
+    + sub Io init (comment_stmt p st). sub Ip ps s. sub Ic cs s0.
+      eexists. eexists. split; [reflexivity|fin].
+    + sub Ic cs (comment_stmt p st).
+      eexists. eexists. split; [reflexivity|fin].
+    + sub Is s (comment_stmt p st). eexists. eexists. split; [reflexivity|fin].
+  - intros b st H. destruct b; cbn [compile_stmt compile_stmts compile_ostmt compile_parts compile_els compile_clauses load_func size_stmts] in *.
+    + eexists. eexists. split; [reflexivity|fin].
+    + sub Is s st. sub Iss b s0. eexists. eexists. split; [reflexivity|fin].
+  - intros o st H. destruct o; cbn [compile_stmt compile_stmts compile_ostmt compile_parts compile_els compile_clauses load_func size_ostmt] in *.
+    + eexists. eexists. split; [reflexivity|fin].
+    + destruct (Is s st) as (l & s1 & E & U); [lia|]. eauto.
+  - intros ps st H. destruct ps; cbn [compile_stmt compile_stmts compile_ostmt compile_parts compile_els compile_clauses load_func size_parts] in *.
+    + eexists. eexists. split; [reflexivity|fin].
+    + destruct (memN g (unl st)) eqn:Em.
+      * pose proof (usize_remove g (unl st) Em) as Hr. pose proof (size_parts_pos ps) as Hpos.
+        destruct (Il g (set_unl (removeN g (unl st)) st)) as (s1 & E & U); [unfold set_unl; cbn [unl]; lia|].
+        use_eq E. unfold set_unl in U. cbn [unl] in U.
+        destruct (Ip ps s1) as (l & s2 & E2 & U2); [lia|]. exists l, s2. split; [exact E2|fin].
+      * cbn [bind]. destruct (Ip ps st) as (l & s2 & E2 & U2); [lia|]. exists l, s2. split; [exact E2|fin].
+    + sub Iss b (set_cm None st). sub Ip ps (set_cm (cm st) s).
+      eexists. eexists. split; [reflexivity|fin].
+    + sub Ip ps1 st. sub Ip ps2 s. eexists. eexists. split; [reflexivity|fin].
+  - intros e st H. destruct e; cbn [compile_stmt compile_stmts compile_ostmt compile_parts compile_els compile_clauses load_func size_els] in *.
+    + eexists. eexists. split; [reflexivity|fin].
+    + sub Iss b st. eexists. eexists. split; [reflexivity|fin].
+    + sub Is s st. eexists. eexists. split; [reflexivity|fin].
+  - intros cs st H. destruct cs; cbn [compile_stmt compile_stmts compile_ostmt compile_parts compile_els compile_clauses load_func size_clauses] in *.
+    + eexists. eexists. split; [reflexivity|fin].
+    + sub Ip ps st. sub Io comm s. sub Iss b s0. sub Ic cs (comment_stmt p s1).
+      eexists. eexists. split; [reflexivity|fin].
+  - intros g st H. cbn [compile_stmt compile_stmts compile_ostmt compile_parts compile_els compile_clauses load_func]. unfold gsize in H.
+    destruct (find_func pr g) as [[g' p dp hd dk sh body|g' p dp hd dk body]|] eqn:Ef.
+    + simpl size_decl in H. destruct (Iss body (set_cm None st)) as (l & s1 & E & U); [unfold set_cm; cbn [unl]; lia|].
+      use_eq E. eexists. split; [reflexivity|]. unfold add_out, set_cm in *. cbn [unl] in *. lia.
+    + eexists. split; [reflexivity|fin].
+    + eexists. split; [reflexivity|fin].
+Qed.
+
+Lemma T_zero : T_all 0.
+Proof.
+  unfold T_all, T_stmt, T_stmts, T_ostmt, T_parts, T_els, T_clauses, T_load.
+  refine (conj _ (conj _ (conj _ (conj _ (conj _ (conj _ _)))))).
+  - intros s st H. destruct s; simpl in H; lia.
+  - intros b st H. destruct b; simpl in H; lia.
+  - intros o st H. destruct o; simpl in H; lia.
+  - intros ps st H. destruct ps; simpl in H; lia.
+  - intros e st H. destruct e; simpl in H; lia.
+  - intros cs st H. destruct cs; simpl in H; lia.
+  - intros g st H. lia.
+Qed.
+
+Lemma T_any f : T_all f.
+Proof. induction f; [exact T_zero|apply T_step; assumption]. Qed.
+
+End Fuel.
+
+Section FuelTop.
+Variable pr : prog.
+
+Definition funcs_total (ds : list decl) : nat :=
+  fold_right (fun d n => match d with DFunc _ _ _ _ _ _ _ => size_decl d + n | _ => n end) 0%nat ds.
+Definition meths_total (ds : list decl) : nat :=
+  fold_right (fun d n => match d with DMethod _ _ _ _ _ _ => size_decl d + n | _ => n end) 0%nat ds.
+
+Lemma totals_sum ds : (funcs_total ds + meths_total ds = fold_right (fun d n => size_decl d + n) 0 ds)%nat.
+Proof. induction ds as [|d t IH]; simpl; auto. destruct d; simpl in *; lia. Qed.
+
+Lemma usize_le_total : forall ds pre,
+  pr = pre ++ ds -> nodupb (func_names pr) = true -> (usize pr (func_names ds) <= funcs_total ds)%nat.
+Proof.
+  induction ds as [|d t IH]; intros pre Hpr Hnd; simpl; auto.
+  destruct d as [g p dp hd dk sh body|g p dp hd dk body].
+  - change (func_names (DFunc g p dp hd dk sh body :: t)) with (g :: func_names t). cbn [usize funcs_total fold_right].
+    pose proof Hnd as Hnd0. rewrite Hpr, func_names_app in Hnd.
+    change (func_names (DFunc g p dp hd dk sh body :: t)) with (g :: func_names t) in Hnd.
+    apply nodupb_app_cons in Hnd as (Hg1 & _ & _).
+    assert (Hff : find_func pr g = Some (DFunc g p dp hd dk sh body)) by (rewrite Hpr; apply find_func_app; exact Hg1).
+    change (usize pr ([g] ++ func_names t)) with (gsize pr g + usize pr (func_names t))%nat.
+    unfold gsize. rewrite Hff.
+    specialize (IH (pre ++ [DFunc g p dp hd dk sh body])). rewrite <- app_assoc in IH. specialize (IH Hpr Hnd0).
+    fold (funcs_total t). lia.
+  - change (func_names (DMethod g p dp hd dk body :: t)) with (func_names t). cbn [funcs_total fold_right].
+    specialize (IH (pre ++ [DMethod g p dp hd dk body])). rewrite <- app_assoc in IH. exact (IH Hpr Hnd).
+Qed.
+
+Lemma load_decls_total fuel : forall ds st,
+  (1 + usize pr (unl st) <= fuel)%nat ->
+  exists st', load_decls pr fuel ds st = Ok st' /\ (usize pr (unl st') <= usize pr (unl st))%nat.
+Proof.
+  induction ds as [|d t IH]; intros st H; simpl.
+  - eauto.
+  - destruct d as [g p dp hd dk sh body|g p dp hd dk body]; [|apply IH; exact H].
+    destruct (memN g (unl st)) eqn:Em.
+    + pose proof (usize_remove pr g (unl st) Em) as Hr.
+      destruct (T_any pr fuel) as (_ & _ & _ & _ & _ & _ & Tl). unfold T_load in Tl.
+      destruct (Tl g (set_unl (removeN g (unl st)) st)) as (s1 & E & U); [unfold set_unl; cbn [unl]; lia|].
+      rewrite E. cbn [bind]. unfold set_unl in U. cbn [unl] in U.
+      destruct (IH s1) as (s2 & E2 & U2); [lia|]. exists s2. split; [exact E2|lia].
+    + cbn [bind]. apply IH. exact H.
+Qed.
+
+Lemma load_methods_total fuel : forall ds st,
+  (meths_total ds + usize pr (unl st) <= fuel)%nat ->
+  exists st', load_methods pr fuel ds st = Ok st'.
+Proof.
+  induction ds as [|d t IH]; intros st H; simpl.
+  - eauto.
+  - destruct d as [g p dp hd dk sh body|g p dp hd dk body]; cbn [meths_total fold_right] in H; [apply IH; exact H|].
+    fold (meths_total t) in H. simpl size_decl in H.
+    destruct (T_any pr fuel) as (_ & Tss & _). unfold T_stmts, T_res in Tss.
+    destruct (Tss body (set_cm None st)) as (l & s1 & E & U); [unfold set_cm; cbn [unl]; lia|].
+    rewrite E. cbn [bind]. apply IH. unfold add_out, set_cm in *. cbn [unl] in *. lia.
+Qed.
+
+(* the model always terminates within prog_fuel, and never panics *)
+Lemma compile_prog_total :
+  nodupb (func_names pr) = true -> exists out, compile_prog (prog_fuel pr) pr = Ok out.
+Proof.
+  intros Hnd. unfold compile_prog.
+  pose proof (usize_le_total pr [] eq_refl Hnd) as Hu.
+  pose proof (totals_sum pr) as Hs.
+  assert (Hf : prog_fuel pr = (1 + fold_right (fun d n => size_decl d + n) 0 pr)%nat) by reflexivity.
+  destruct (load_decls_total (prog_fuel pr) pr (mkst None (func_names pr) [])) as (st & E & U); [cbn [unl]; lia|].
+  rewrite E. cbn [bind]. cbn [unl] in U.
+  destruct (load_methods_total (prog_fuel pr) pr st) as (st' & E'); [lia|].
+  rewrite E'. cbn [bind]. eauto.
+Qed.
+
+End FuelTop.
+
+(* ------------------------------------------------------------------ every statement is emitted, and nothing else is tagged *)
+
+Lemma line_tags_app a b : line_tags (a ++ b) = line_tags a ++ line_tags b.
+Proof. unfold line_tags. apply flat_map_app. Qed.
+Lemma line_tags_dir c : line_tags (dir_line c) = [].
+Proof. destruct c as [[f l]|]; reflexivity. Qed.
+Lemma line_tags_docs n : line_tags (docs n) = [].
+Proof. induction n; simpl; auto. Qed.
+Lemma line_tags_code id p : forall t, In (Some t) (line_tags [Code id p]) <-> In (Some t) [p].
+Proof. intros t. destruct p as [x|]; simpl; [tauto|]. split; [tauto|]. intros [H|[]]. discriminate. Qed.
+Lemma line_tags_cons x ls : line_tags (x :: ls) = line_tags [x] ++ line_tags ls.
+Proof. change (x :: ls) with ([x] ++ ls). apply line_tags_app. Qed.
+Lemma line_tags_C0 : line_tags [C0] = [].
+Proof. reflexivity. Qed.
+Lemma line_tags_header id p init il : forall t,
+  In (Some t) (line_tags (header id p init il)) <-> In (Some t) (hdr_tag p init ++ (match init with ONone => [] | OSome _ => line_tags il end)).
+Proof.
+  intros t. destruct init; simpl header; simpl hdr_tag.
+  - rewrite app_nil_r. apply line_tags_code.
+  - rewrite line_tags_cons, line_tags_C0. simpl. tauto.
+Qed.
+
+Section Complete.
+Variable pr : prog.
+
+Definition same_tags (tags : list pos) (ls : list outline) : Prop :=
+  forall t, In (Some t) tags <-> In (Some t) (line_tags ls).
+
+Definition C_stmt (f : nat) : Prop := forall s st ls st', compile_stmt pr f s st = Ok (ls, st') -> same_tags (tags_stmt s) ls.
+Definition C_stmts (f : nat) : Prop := forall b st ls st', compile_stmts pr f b st = Ok (ls, st') -> same_tags (tags_stmts b) ls.
+Definition C_ostmt (f : nat) : Prop := forall o st ls st', compile_ostmt pr f o st = Ok (ls, st') -> same_tags (tags_ostmt o) ls.
+Definition C_parts (f : nat) : Prop := forall ps st ls st', compile_parts pr f ps st = Ok (ls, st') -> same_tags (tags_parts ps) ls.
+Definition C_els (f : nat) : Prop := forall e st ls st', compile_els pr f e st = Ok (ls, st') -> same_tags (tags_els e) ls.
+Definition C_clauses (f : nat) : Prop := forall cs st ls st', compile_clauses pr f cs st = Ok (ls, st') -> same_tags (tags_clauses cs) ls.
+Definition C_all (f : nat) : Prop := C_stmt f /\ C_stmts f /\ C_ostmt f /\ C_parts f /\ C_els f /\ C_clauses f.
+
+Ltac tagnorm :=
+  repeat first [ rewrite line_tags_app | rewrite line_tags_dir | rewrite line_tags_docs | rewrite line_tags_C0
+               | rewrite in_app_iff | rewrite (line_tags_cons (Code _ _)) ];
+  cbn [app In].
+
+Lemma C_step f : C_all f -> C_all (S f).
+Proof.
+  intros (Is & Iss & Io & Ip & Ie & Ic).
+  unfold C_all, C_stmt, C_stmts, C_ostmt, C_parts, C_els, C_clauses, same_tags in *.
+  refine (conj _ (conj _ (conj _ (conj _ (conj _ _))))).
+  - intros s st ls st' H t. destruct s; cbn [compile_stmt tags_stmt] in H |- *.
+    + bind_in H. inversion H; subst; clear H. specialize (Ip _ _ _ _ E t).
+      tagnorm. rewrite (line_tags_code id p t). cbn [In]. tauto.
+    + bind_in H. inversion H; subst; clear H. specialize (Ip _ _ _ _ E t).
+      tagnorm. rewrite (line_tags_code id p t). cbn [In]. tauto.
+    + bind_in H. inversion H; subst; clear H. specialize (Iss _ _ _ _ E t). tagnorm. tauto.
+    + bind_in H. bind_in H. bind_in H. bind_in H. inversion H; subst; clear H.
+      specialize (Io _ _ _ _ E t). specialize (Ip _ _ _ _ E0 t). specialize (Iss _ _ _ _ E1 t). specialize (Ie _ _ _ _ E2 t).
+      tagnorm. rewrite (line_tags_header id p init l t). tagnorm. destruct init; cbn [tags_ostmt hdr_tag app In] in *; tauto.
+    + bind_in H. bind_in H. bind_in H. bind_in H. inversion H; subst; clear H.
+      specialize (Io _ _ _ _ E t). specialize (Ip _ _ _ _ E0 t). specialize (Iss _ _ _ _ E1 t). pose proof (Io _ _ _ _ E2 t) as Io2.
+      tagnorm. rewrite (line_tags_header id p init l t). tagnorm. destruct init; cbn [tags_ostmt hdr_tag app In] in *; tauto.
+    + bind_in H. bind_in H. inversion H; subst; clear H.
+      specialize (Ip _ _ _ _ E t). specialize (Iss _ _ _ _ E0 t).
+      tagnorm. rewrite (line_tags_code id p t). cbn [In]. tauto.
+    + bind_in H. bind_in H. bind_in H. inversion H; subst; clear H.
+      specialize (Ip _ _ _ _ E t). pose proof (Ip _ _ _ _ E0 t) as Ip2. specialize (Iss _ _ _ _ E1 t).
+      tagnorm. rewrite (line_tags_code id p t). cbn [In]. tauto.
+    + bind_in H. bind_in H. bind_in H. inversion H; subst; clear H.
+      specialize (Io _ _ _ _ E t). specialize (Ip _ _ _ _ E0 t). specialize (Ic _ _ _ _ E1 t).
+      tagnorm. rewrite (line_tags_header id p init l t). tagnorm. destruct init; cbn [tags_ostmt hdr_tag app In] in *; tauto.
+    + bind_in H. inversion H; subst; clear H. specialize (Ic _ _ _ _ E t).
+      tagnorm. destruct cs; tagnorm; tauto.
+    + bind_in H. inversion H; subst; clear H. specialize (Is _ _ _ _ E t). tagnorm. tauto.
+  - intros b st ls st' H t. destruct b; cbn [compile_stmts tags_stmts] in H |- *.
+    + inversion H; subst. simpl. tauto.
+    + bind_in H. bind_in H. inversion H; subst; clear H.
+      specialize (Is _ _ _ _ E t). specialize (Iss _ _ _ _ E0 t). tagnorm. tauto.
+  - intros o st ls st' H t. destruct o; cbn [compile_ostmt tags_ostmt] in H |- *.
+    + inversion H; subst. simpl. tauto.
+    + exact (Is _ _ _ _ H t).
+  - intros ps st ls st' H t. destruct ps; cbn [compile_parts tags_parts] in H |- *.
+    + inversion H; subst. simpl. tauto.
+    + destruct (if memN g (unl st) then load_func pr f g (set_unl (removeN g (unl st)) st) else Ok st) as [x| |];
+        cbn [bind] in H; try discriminate. exact (Ip _ _ _ _ H t).
+    + bind_in H. bind_in H. inversion H; subst; clear H.
+      specialize (Iss _ _ _ _ E t). specialize (Ip _ _ _ _ E0 t). tagnorm. tauto.
+    + bind_in H. bind_in H. inversion H; subst; clear H.
+      specialize (Ip _ _ _ _ E t). pose proof (Ip _ _ _ _ E0 t) as Ip2. tagnorm. tauto.
+  - intros e st ls st' H t. destruct e; cbn [compile_els tags_els] in H |- *.
+    + inversion H; subst. simpl. tauto.
+    + bind_in H. inversion H; subst; clear H. specialize (Iss _ _ _ _ E t).
+      destruct b as [|[] []]; tagnorm; tauto.
+    + bind_in H. inversion H; subst; clear H. specialize (Is _ _ _ _ E t). tagnorm. tauto.
+  - intros cs st ls st' H t. destruct cs; cbn [compile_clauses tags_clauses] in H |- *.
+    + inversion H; subst. simpl. tauto.
+    + bind_in H. bind_in H. bind_in H. bind_in H. inversion H; subst; clear H.
+      specialize (Ip _ _ _ _ E t). specialize (Io _ _ _ _ E0 t). specialize (Iss _ _ _ _ E1 t). specialize (Ic _ _ _ _ E2 t).
+      tagnorm. destruct comm; cbn [hdr_tag tags_ostmt app In] in *.
+      * rewrite (line_tags_code id p t). destruct ft; tagnorm; cbn [In]; tauto.
+      * tagnorm. destruct ft; tagnorm; tauto.
+Qed.
+
+Lemma C_zero : C_all 0.
+Proof. unfold C_all. refine (conj _ (conj _ (conj _ (conj _ (conj _ _))))); intros x st ls st' H; discriminate H. Qed.
+Lemma C_any f : C_all f.
+Proof. induction f; [exact C_zero|apply C_step; assumption]. Qed.
+
+End Complete.
+
+Lemma in_line_tags ls t : In (Some t) (line_tags ls) <-> exists i id, nth_error ls i = Some (Code id (Some t)).
+Proof.
+  unfold line_tags. rewrite in_flat_map. split.
+  - intros (x & Hin & Hx). destruct x as [| |id [t'|]]; simpl in Hx; try tauto.
+    destruct Hx as [E|[]]. inversion E; subst. apply In_nth_error in Hin as [i Hi]. eauto.
+  - intros (i & id & H). exists (Code id (Some t)). split; [eapply nth_error_In; eauto|simpl; auto].
+Qed.
+
+(* every positioned statement of a compiled statement list has a line tagged with its position, and every tagged
+   line comes from a statement *)
+Lemma stmts_emitted pr fuel b st ls st' t :
+  compile_stmts pr fuel b st = Ok (ls, st') ->
+  (In (Some t) (tags_stmts b) <-> exists i id, nth_error ls i = Some (Code id (Some t))).
+Proof.
+  intros H. rewrite <- in_line_tags. destruct (C_any pr fuel) as (_ & Css & _). exact (Css _ _ _ _ H t).
+Qed.
